@@ -96,3 +96,46 @@ pub proof fn lemma_mem_value_bound(s: Seq<u8>, le: bool)
     lemma_be_value_bound(s);
     lemma_le_value_bound(s);
 }
+
+// ---- byte order: the Piece fold of `read` ---------------------------------------------------------------
+/// appending a byte at the least significant end: one step of the Piece fold
+pub proof fn lemma_be_value_push(s: Seq<u8>, b: u8)
+    ensures be_value(s.push(b)) == be_value(s) * 256 + b as nat,
+{
+    assert(s.push(b).drop_last() =~= s);
+    assert(s.push(b).last() == b);
+}
+/// the same step phrased on prefixes of a fixed sequence (the form the loop invariant of `read` uses)
+pub proof fn lemma_be_value_prefix_step(s: Seq<u8>, n: int)
+    requires 0 <= n < s.len(),
+    ensures be_value(s.subrange(0, n + 1)) == be_value(s.subrange(0, n)) * 256 + s[n] as nat,
+{
+    assert(s.subrange(0, n + 1) =~= s.subrange(0, n).push(s[n]));
+    lemma_be_value_push(s.subrange(0, n), s[n]);
+}
+/// reading the reversed sequence big endian is reading the sequence little endian
+pub proof fn lemma_be_reverse_is_le(s: Seq<u8>)
+    ensures be_value(s.reverse()) == le_value(s),
+    decreases s.len(),
+{
+    if s.len() > 0 {
+        lemma_be_reverse_is_le(s.drop_first());
+        assert(s.reverse().drop_last() =~= s.drop_first().reverse());
+        assert(s.reverse().last() == s[0]);
+    }
+}
+/// folding the bytes in `read_order` most-significant-first yields the value in the image's byte order
+pub proof fn lemma_read_order_value(s: Seq<u8>, le: bool)
+    ensures
+        be_value(read_order(s, le)) == mem_value(s, le),
+        read_order(s, le).len() == s.len(),
+        read_order(s, le).subrange(0, s.len() as int) == read_order(s, le),
+        s.len() >= 1 ==> be_value(read_order(s, le).subrange(0, 1)) == read_order(s, le)[0] as nat,
+{
+    lemma_be_reverse_is_le(s);
+    if s.len() >= 1 {
+        lemma_be_value_prefix_step(read_order(s, le), 0);
+        assert(be_value(read_order(s, le).subrange(0, 0)) == 0);
+    }
+    assert(read_order(s, le).subrange(0, s.len() as int) =~= read_order(s, le));
+}
